@@ -11,7 +11,7 @@ Next == \/ i = 0 /\ i' \in {-b : b \in 1..NB}
 Spec == Init /\ [][Next]_i
 StEq(a, b) == a.n = b.n /\ a.xs = b.xs /\ a.nested = b.nested /\ a.dl = b.dl /\ a.s = b.s /\ a.child = b.child
               /\ a.tmp = b.tmp /\ a.ro = b.ro /\ a.kids = b.kids /\ a.hasx = b.hasx /\ a.xval = b.xval
-              /\ a.pvset = b.pvset /\ a.pvval = b.pvval /\ a.wr = b.wr
+              /\ a.pvset = b.pvset /\ a.pvval = b.pvval /\ a.wr = b.wr /\ a.bl = b.bl
 Clauses(c) ==
   IF c.op = "copy"
   THEN (IF c.exc # "" THEN {"C14-copy-raised"} ELSE
